@@ -16,6 +16,8 @@
 //!         h                  drop the harness's client handle
 //!         e / r / w          end of stream / failing reads / failing writes from now on
 //!         p / u              the peer stops / resumes reading (writes block: back-pressure)
+//!         k<n>               the transport takes at most n bytes per write call (0 = all)
+//!         q / Q              the application stops / resumes polling ConnectionEvents
 //!         A                  from now on a built-in rule-abiding echo server answers what the client writes
 //!         n:<hexname>        (auto mode) a subsystem changes
 //!         z<id>:<spec>;<hexname>   (auto mode) a change and a raw_command in the same instant (select! tie)
@@ -52,6 +54,8 @@ struct Shared {
     dropped: bool,
     wpaused: bool,
     wwaker: Option<Waker>,
+    /// the transport takes at most this many bytes per write call (0 = everything)
+    wlimit: usize,
     /// bytes written by the client that the built-in server (auto mode) has not looked at yet
     srv_in: Vec<u8>,
     auto: Option<AutoServer>,
@@ -176,9 +180,10 @@ impl AsyncWrite for Transport {
             s.wwaker = Some(_cx.waker().clone());
             return Poll::Pending;
         }
-        s.written.extend_from_slice(buf);
-        s.srv_in.extend_from_slice(buf);
-        Poll::Ready(Ok(buf.len()))
+        let n = if s.wlimit == 0 { buf.len() } else { buf.len().min(s.wlimit) };
+        s.written.extend_from_slice(&buf[..n]);
+        s.srv_in.extend_from_slice(&buf[..n]);
+        Poll::Ready(Ok(n))
     }
     fn poll_flush(self: Pin<&mut Self>, _cx: &mut Context<'_>) -> Poll<io::Result<()>> {
         Poll::Ready(Ok(()))
@@ -349,6 +354,8 @@ struct Driver {
     client: Option<Client>,
     events: Option<ConnectionEvents>,
     events_ended: bool,
+    /// the application holds ConnectionEvents but does not poll it for now
+    events_unpolled: bool,
     tasks: BTreeMap<u32, JoinHandle<()>>,
     results: Arc<Mutex<Vec<(u32, String)>>>,
     panics_seen: usize,
@@ -414,11 +421,12 @@ impl Driver {
             parts.push(format!("r{}={}", id, s));
         }
         if let Some(ev) = self.events.as_mut() {
-            if !self.events_ended {
+            if !self.events_ended && !self.events_unpolled {
                 let waker = Waker::from(Arc::new(Noop));
                 let mut cx = Context::from_waker(&waker);
                 loop {
-                    let fut = ev.next();
+                    // (unconstrained: tokio's cooperative budget would otherwise report Pending after 128 items)
+                    let fut = tokio::task::unconstrained(ev.next());
                     tokio::pin!(fut);
                     match fut.poll(&mut cx) {
                         Poll::Ready(Some(ConnectionEvent::SubsystemChange(s))) => {
@@ -498,6 +506,11 @@ impl Driver {
             b'p' => {
                 self.shared.lock().unwrap().wpaused = true;
             }
+            b'k' => {
+                self.shared.lock().unwrap().wlimit = id as usize;
+            }
+            b'q' => self.events_unpolled = true,
+            b'Q' => self.events_unpolled = false,
             b'u' => {
                 let w = {
                     let mut s = self.shared.lock().unwrap();
@@ -640,6 +653,7 @@ async fn drive(toks: Vec<String>) -> String {
         client: None,
         events: None,
         events_ended: false,
+        events_unpolled: false,
         tasks: BTreeMap::new(),
         results: Arc::new(Mutex::new(Vec::new())),
         panics_seen: PANIC_COUNT.load(Ordering::SeqCst),
